@@ -10,6 +10,12 @@ BASE_NOTE = ("Assumed (listed per run in evidence.assumptions): documented behav
              "tree-shaped inputs (A-SEP); int arithmetic on lengths is mathematical (A-LEN). ")
 
 CLAIMS = {
+ "C09": ("PARTIAL, and the category is therefore `other`, not `proof`. Proved for all inputs: the priority tables (every entry pinned; priorities of the valid codings of one protocol pairwise distinct and positive), "
+         "byLength and byDataCoding, their composition in batchEncoderSorter.Less (= fewer parts first, then the smaller priority value: a strict total order on candidates of one protocol), "
+         "the per-candidate encoder.Run (for every protocol / coding / content: whether the candidate can encode, and its parts, are exactly what the single-coding entry points of C06/C07 give, more than 255 parts refused; it writes only its own result members, which is what makes the per-candidate goroutines independent), and Result. "
+         "NOT proved: BatchDataCodingEncoder.Build itself (iteration over a map with interface keys, one goroutine per candidate, lo.Filter, sort.Sort, the UCS-2 fallback) - outside the verifier's subset. It is covered by a BOUNDED stand-in run on every check (validators TestValidator_BUILD): every non-empty subset of the CMPP codings {0,8,9,15} and SMPP codings {0,1,3,8,99} x origin choices (none, valid, invalid) x a content corpus x three presentations (given order, shuffled, shuffled+duplicated under a random GOMAXPROCS) against an independent oracle (fewest parts, documented priority on ties, UCS-2 fallback, error only when nothing can or the request is empty, parts equal to the single-coding path). "
+         "A failure of the stand-in is reported as a VIOLATION with the failing request.",
+         "sort.Sort, errgroup and lo.Filter are not modelled; scheduling independence is argued from Run's frame condition plus the bounded runs, not proved (C13 is not applicable to this technique). Codecs other than ASCII / packed GSM 7-bit are assumed (A-XTEXT, bounded stand-in). "),
  "C03": ("Every function under contract is executed symbolically for ALL inputs with every implicit Go check turned into an obligation (index/slice bounds, nil dereference, nil-map store, "
          "negative make, division by zero, failed type assertion); every loop carries a variant (termination) and every allocation is charged to the ghost counter `alloc`, "
          "bounded by a linear function of the input length in each parser's contract (so an unchecked length field cannot buy memory); every decoder has the clause "
@@ -97,7 +103,7 @@ for p in props:
         checks.append({
             "property_id": p['id'], "quick_cmd": "./check %s quick" % p['id'], "thorough_cmd": "./check %s thorough" % p['id'],
             "evidence_file": "/verif/evidence/%s.json" % p['id'], "engine": "govc",
-            "level_claimed": {"category": "proof", "text": text, "design_ref": "DESIGN.md section 4, " + p['id']},
+            "level_claimed": {"category": ("other" if p['id'] == "C09" else "proof"), "text": text, "design_ref": "DESIGN.md section 9 (as built) and section 4, " + p['id']},
             "level_note": BASE_NOTE + note, "technique": TECH})
 na = []
 for p in props:
